@@ -239,7 +239,7 @@ fn gen(seed: u64, n: u64) -> Vec<String> {
         let mut roles: Vec<String> = vec![];
         let mut members: Vec<u64> = vec![];
         let stress = r.chance(1, 6);           // aim at the 32-role / 64-member capacities
-        let len = if stress { r.range(150, 260) } else { r.range(10, 80) };
+        let len = if stress { r.range(40, 120) } else { r.range(10, 80) };
         let n_addr = if stress { 70 } else { r.range(2, 12) };
         let fresh_name = |r: &mut Rng, k: usize| -> String {
             if k < known.len() && r.chance(2, 3) { known[k].to_string() } else {
@@ -251,17 +251,23 @@ fn gen(seed: u64, n: u64) -> Vec<String> {
                 sname
             }
         };
+        let mut script: Vec<String> = vec![];
+        if stress {
+            // fill the role table (32) and the member table (64) and step over both limits
+            let nr = r.range(30, 34) as usize;
+            for k in 0..nr { let nm = fresh_name(&mut r, k); if !roles.contains(&nm) { roles.push(nm.clone()); } script.push(format!("role enable {s} {}", hex::encode(nm.as_bytes()))); }
+            let na = r.range(62, 67);
+            for a in 1..=na { let h = hex::encode(r.pick(&roles).as_bytes()); members.push(a); script.push(format!("role grant {s} {a} {h}")); }
+        }
+        out.append(&mut script);
         for _ in 0..len {
-            let role = if !roles.is_empty() && r.chance(if stress { 5 } else { 8 }, 10) { r.pick(&roles).clone() } else {
-                let nm = fresh_name(&mut r, roles.len());
-                if !roles.contains(&nm) { roles.push(nm.clone()); }
-                nm
-            };
+            let fresh = roles.is_empty() || r.chance(if stress { 1 } else { 2 }, 10);
+            let role = if !fresh { r.pick(&roles).clone() } else { fresh_name(&mut r, roles.len()) };
             let addr = if !members.is_empty() && r.chance(6, 10) { *r.pick(&members) } else { r.range(1, n_addr) };
             let h = hex::encode(role.as_bytes());
-            let op = if stress { r.below(14) } else { r.below(20) };
+            let op = if fresh && r.chance(3, 4) { 0 } else { r.below(20) };
             let line = match op {
-                0 | 1 => format!("role enable {s} {h}"),
+                0 | 1 => { if !roles.contains(&role) { roles.push(role.clone()); } format!("role enable {s} {h}") }
                 2 => format!("role disable {s} {h}"),
                 3..=7 => { if !members.contains(&addr) { members.push(addr); } format!("role grant {s} {addr} {h}") }
                 8 | 9 => format!("role revoke {s} {addr} {h}"),
